@@ -80,6 +80,8 @@ type vWorld struct {
 	listerFaults bool
 	// faultOnly: if set, only calls with this verb may fail
 	faultOnly string
+	// faultKind: the error kind used when faultKinds == 1 (0 = server error)
+	faultKind int
 }
 
 type vCrash struct{}
@@ -111,7 +113,7 @@ func (w *vWorld) fault(verb, resource, name string) error {
 		sym.Cover("crash injected")
 		panic(vCrash{})
 	}
-	kind := 0
+	kind := w.faultKind
 	if w.faultKinds > 1 {
 		kind = sym.Pick("faultkind@"+verb+":"+name, w.faultKinds)
 	}
